@@ -37,6 +37,16 @@ def permute_bgps(p, rng):
     return p
 
 
+def wide_dataset(rng, D, m, P):
+    """Exactly D default-graph quads of which exactly m have predicate P, plus a few named-graph quads."""
+    with_p = [(s_, P, o, "") for s_ in G.IRIS[:4] for o in G.IRIS[:5]]
+    others = [(s_, p, o, "") for s_ in G.IRIS[:4] for p, objs in ((G.P_IRI[0], G.IRIS[:5]), (G.P_IRI[1], G.IRIS[:5]), (G.P_VAL, G.INTS), (G.P_LIT, G.LITS))
+              if p != P for o in objs]
+    quads = rng.sample(with_p, m) + rng.sample(others, D - m)
+    quads += [(rng.choice(G.IRIS[:4]), rng.choice(G.PREDS[:2]), rng.choice(G.IRIS[:5]), rng.choice(G.GRAPHS[:2])) for _ in range(3)]
+    return sorted(set(quads))
+
+
 def gen_cases(seed, n, threads, max_assign):
     rng = random.Random(seed * 15485863 + 2)
     cases = []
@@ -53,12 +63,18 @@ def gen_cases(seed, n, threads, max_assign):
         if rng.random() < 0.5:
             g.ctx = ""
             q["p"]["ps"].append(g.bgp(rng.choice([2, 3, 4])))
-        if i % 8 == 7:
-            # wide left side: more than BIND_JOIN_MIN_CHUNK (64) left rows so that execute_bind_join takes its parallel chunk path
-            quads = G.gen_dataset(rng, 26)
+        wide = i % 8 == 7
+        if wide:
+            # wide left side: the bind join's left input has L = D * m rows with L >= 64 * k and L % k != 0 for pools of k = 2 and 3
+            # workers (execute_bind_join splits its left input over the pool once it exceeds BIND_JOIN_MIN_CHUNK = 64 rows per worker)
+            D, m = [(29, 7), (31, 7), (27, 5), (35, 7)][(i // 8) % 4]
+            P = G.P_IRI[(i // 8) % 2]
+            quads = wide_dataset(rng, D, m, P)
             V, C = G.V, G.C
-            q["p"] = {"t": "join", "ps": [{"t": "bgp", "tps": [[V("a"), V("b"), V("c")]]}, {"t": "bgp", "tps": [[V("d"), C(rng.choice(G.P_IRI)), V("e")]]},
-                                          {"t": "bgp", "tps": [[V("a"), V("h"), V("f")]]}]}
+            # a selective third pattern keeps the answer (and TLC's evaluation of it) small; the bind join's left input is still D * m rows
+            third = [[V("a"), C(G.P_LIT), C(G.LITS[(i // 8) % 3])]] if (i // 8) % 3 else [[V("a"), C(G.P_VAL), V("f")]]
+            q["p"] = {"t": "join", "ps": [{"t": "bgp", "tps": [[V("a"), V("b"), V("c")]]}, {"t": "bgp", "tps": [[V("d"), C(P), V("e")]]},
+                                          {"t": "bgp", "tps": third}]}
             q["star"], q["proj"], q["from"], q["fromnamed"], q["group"] = True, [], [], [], []
         q["order"], q["limit"], q["distinct"] = [], -1, False
         qs = [q]
@@ -69,9 +85,12 @@ def gen_cases(seed, n, threads, max_assign):
         rng.shuffle(quads)
         k = max(1, int(len(quads) * 0.7))
         early, late = sorted(quads[:k]), quads[k:]
-        late_del = [list(x) for x in early if x[3] == "" and rng.random() < 0.15]
+        late_del = [list(x) for x in early if x[3] == "" and rng.random() < 0.15 and not wide]
+        if wide:
+            qs = qs[:1]
         cases.append({"steps": G.setup_steps(early), "late": [list(x) for x in late], "late_del": late_del,
-                      "texts": [G.pr_select(x) for x in qs], "threads": threads, "max_assign": max_assign,
+                      "texts": [G.pr_select(x) for x in qs], "threads": [t for t in threads if t <= 7] if wide else threads,
+                      "max_assign": min(max_assign, 3) if wide else max_assign,
                       "pass": {"qs": qs}})
     return cases
 
@@ -169,7 +188,7 @@ def run(ctx):
     log(f"L1 Plan.tla: Exec(plan) = Eval(pattern) for {l1_instances} (stable pattern, dataset, join-algorithm assignment) instances; "
         f"all-bind = sideways reading; negative control (unstable patterns disagree) holds")
     n = 600 if thorough else 50
-    cases = gen_cases(ctx.seed, n, [1, 2, 4, 16] if thorough else [1, 4, 16], 27 if thorough else 9)
+    cases = gen_cases(ctx.seed, n, [1, 2, 3, 4, 7, 16] if thorough else [1, 2, 3, 16], 27 if thorough else 9)
     vlib.write_ndjson(os.path.join(wd, "cases.ndjson"), cases)
     vlib.kverif(["c02", "--cases", os.path.join(wd, "cases.ndjson"), "--out", os.path.join(wd, "trace.ndjson"), "--seed", ctx.seed], timeout=3000)
     events, meta, failed, res = validate(wd, os.path.join(wd, "trace.ndjson"), verdict, "l3")
